@@ -308,6 +308,9 @@ func bufPre(o bufOp, st bufState) bool {
 		if o.F && st.Have {
 			return o.A <= ol && st.Idx <= o.B
 		}
+		if o.F && o.I { // as the non-out variant, which needs start <= end
+			return o.A <= imin(o.B, n)
+		}
 		return true
 	case "utb", "utc", "tatweel":
 		return o.A >= 0
@@ -318,6 +321,24 @@ func bufPre(o bufOp, st bufState) bool {
 		if st.Have {
 			return o.A <= ol && st.Idx <= o.B
 		}
+		if o.Name == "utbout" {
+			return o.A <= imin(o.B, n)
+		}
+		return true
+	case "shiftfwd":
+		return st.Have && o.A >= 0
+	case "revrange":
+		if st.Have || o.A < 0 || o.A > o.B || o.B > n {
+			return false
+		}
+		if o.A == 0 && o.B == n {
+			return true
+		}
+		for i := o.A; i < o.B; i++ {
+			if st.Info[i].C != st.Info[o.A].C {
+				return false
+			}
+		}
 		return true
 	}
 	return false
@@ -325,7 +346,7 @@ func bufPre(o bufOp, st bufState) bool {
 
 var bufOpNames = []string{"next", "next", "nextn", "skip", "copy", "replidx", "replace", "replace", "replace", "delete", "delete", "delinplace",
 	"merge", "merge", "merge", "mergeout", "mergeout", "moveto", "moveto", "swap", "clearout", "removeout", "clearpos", "reverse", "revclusters",
-	"setflags", "utb", "utb", "utc", "tatweel", "utbout", "utcout", "propagate"}
+	"setflags", "utb", "utb", "utc", "tatweel", "utbout", "utcout", "propagate", "shiftfwd", "revrange", "revrange"}
 var bufFlagOps = []string{"setflags", "utb", "utb", "utb", "utc", "utc", "tatweel", "utbout", "utcout", "propagate", "propagate", "merge", "next", "replace", "delete", "swap", "clearout", "reverse"}
 
 func bufPropose(r *vh.Rand, st bufState, names []string) bufOp {
@@ -372,6 +393,10 @@ func bufPropose(r *vh.Rand, st bufState, names []string) bufOp {
 	case "mergeout":
 		o.A = rng(0, ol)
 		o.B = rng(o.A, imin(ol, o.A+4))
+		if r.Chance(50) { // a range that reaches the end of the out-buffer: the merge continues into Info
+			o.B = ol
+			o.A = rng(imax(0, ol-3), ol)
+		}
 	case "moveto":
 		if st.Have {
 			o.A = rng(0, ol+n-st.Idx)
@@ -380,6 +405,28 @@ func bufPropose(r *vh.Rand, st bufState, names []string) bufOp {
 		}
 	case "removeout":
 		o.I = r.Bool()
+	case "shiftfwd":
+		o.A = rng(0, 3)
+	case "revrange":
+		// the whole buffer, a sub-range of one run of equal clusters, or (rejected by bufPre) an arbitrary range
+		switch {
+		case n == 0 || r.Chance(35):
+			o.A, o.B = 0, n
+		case r.Chance(80):
+			i := r.Intn(n)
+			lo, hi := i, i+1
+			for lo > 0 && st.Info[lo-1].C == st.Info[i].C {
+				lo--
+			}
+			for hi < n && st.Info[hi].C == st.Info[i].C {
+				hi++
+			}
+			o.A = rng(lo, hi)
+			o.B = rng(o.A, hi)
+		default:
+			o.A = rng(0, n)
+			o.B = rng(o.A, n)
+		}
 	case "setflags":
 		o.Mask = uint32(rng(1, 7))
 		o.I, o.F = r.Bool(), r.Bool()
@@ -393,6 +440,8 @@ func bufPropose(r *vh.Rand, st bufState, names []string) bufOp {
 			o.B = rng(o.A, n+2)
 			if r.Chance(10) {
 				o.B = int(^uint(0) >> 1) // maxInt, as unsafeToConcat(0, maxInt)
+			} else if r.Chance(8) {
+				o.B = rng(0, n) // possibly start > end: an empty window for the variants that tolerate it
 			}
 		}
 	}
@@ -508,6 +557,13 @@ func bufGen(r *vh.Rand, tier string, n int, emit func(any), c18 bool) {
 		{Info: []bufGlyph{{C: 0, M: 8, P: 65, G: 1}, {C: 1, M: 1, P: 66, G: 0}, {C: 1, M: 0, P: 67, G: 2}, {C: 3, M: 0, P: 68, G: 0}}, PosLen: 4, PosCap: 4, Have: true, HasGF: true},
 		{Info: []bufGlyph{{C: 4, M: 0, P: 65, G: 0}, {C: 2, M: 2, P: 66, G: 3}, {C: 2, M: 0, P: 67, G: 0}, {C: 0, M: 4, P: 68, G: 5}}, PosLen: 4, PosCap: 4, Have: true, Level: 1, Flags: uint16(hb.ProduceUnsafeToConcat), HasGF: true},
 	}
+	// the same two buffers in the middle of a pass: two glyphs already in the out-buffer, the cursor inside a cluster
+	for _, init := range inits[:2] {
+		mid := init
+		mid.Out = append([]bufGlyph(nil), init.Info[:2]...)
+		mid.Idx = 2
+		inits = append(inits, mid)
+	}
 	alphabet := []bufOp{
 		{Name: "next"}, {Name: "skip"}, {Name: "copy"}, {Name: "delete"}, {Name: "replidx", A: 7},
 		{Name: "replace", A: 1, HasGids: true, Gids: []uint32{8, 9}}, {Name: "replace", A: 2, HasGids: true, Gids: []uint32{6}},
@@ -517,6 +573,7 @@ func bufGen(r *vh.Rand, tier string, n int, emit func(any), c18 bool) {
 		{Name: "moveto", A: 0}, {Name: "moveto", A: 1}, {Name: "moveto", A: 3}, {Name: "swap"},
 		{Name: "utb", A: 0, B: 3}, {Name: "utb", A: 1, B: 4}, {Name: "utbout", A: 0, B: 3}, {Name: "utcout", A: 1, B: 2},
 		{Name: "utc", A: 0, B: 4}, {Name: "propagate"}, {Name: "clearout"}, {Name: "delinplace", A: 1}, {Name: "reverse"}, {Name: "revclusters"},
+		{Name: "shiftfwd", A: 2}, {Name: "revrange", A: 1, B: 3}, {Name: "revrange", A: 0, B: 4}, {Name: "removeout", I: true},
 	}
 	if c18 {
 		alphabet = []bufOp{
